@@ -74,6 +74,8 @@ def mix_label(net):
         lab = k
         if k == "angle" and any(float(o.true[0]) > math.pi for o in obs):
             lab = "angle>200gon"
+        if k == "angle" and any(o.dh[1] != 0 or o.dh[2] != 0 for o in obs):
+            lab += "(target-dh)"
         kinds.append(lab)
     s = "+".join(kinds)
     if any(any(d != 0 for d in o.dh) for _, o in net.all_obs()):
@@ -403,6 +405,8 @@ def check_dump_against_model(out, net, D, Pref, params, rows, R, mix, wit, varia
         kind = o.kind + ("(dh)" if any(d != 0 for d in o.dh) else "")
         if o.kind == "angle" and float(o.true[0]) > math.pi:
             kind = "angle>200gon"
+        if o.kind == "angle" and (o.dh[1] != 0 or o.dh[2] != 0):
+            kind = "angle(target-dh)"
         # misclosure
         if o.kind in g3gen.ANGULAR:
             smin = min(float(np.sqrt((X[q] - X[o.pts[0]]) @ (X[q] - X[o.pts[0]]))) for q in o.pts[1:])
@@ -716,7 +720,7 @@ def _work(out, seed, i, tier, tmp, keep_input):
             continue
         okP[alg] = g
         check_perturbed(out, Pn, g["R"], mix, w, dmax, dmin)
-        if g["pe"] is not None:
+        if g["pe"] is not None and n_dropped(Pn, g["R"]) == 0:
             try:
                 D = g3gen.parse_adj_input(g["pe"])
                 check_dump_against_model(out, Pn, D, P1, params1, rows1, g["R"], mix, w, "perturbed")
@@ -749,6 +753,8 @@ def _work(out, seed, i, tier, tmp, keep_input):
     if not okN:
         return
     any_R = next(iter(okN.values()))["R"]
+    if n_dropped(N, any_R):
+        return                                  # reported by check_counts; the reference describes another system
     ctx = ctx_for(ref2, P2, any_R, N)
     if not (ref2.ok and ref2.subset_ok):
         out.inconc.append("noisy variant: reference rank ambiguous")
@@ -775,7 +781,13 @@ def _work(out, seed, i, tier, tmp, keep_input):
         # frame taken as constant: relative (sight / R) for angular observations, (dh / sight) for lengths with dh)
         ang = any(o.kind in g3gen.ANGULAR for _, o in N.all_obs())
         hasdh = "(dh)" in mix
-        rel = 1e-6 + (1e-2 if ang else 0.0) + (2.5 / dmin if hasdh else 0.0)
+        smax = 0.0
+        Xa = N.approx()
+        for _, o in N.all_obs():
+            if o.kind in g3gen.ANGULAR:
+                for q in o.pts[1:]:
+                    smax = max(smax, float(np.sqrt((Xa[q] - Xa[o.pts[0]]) @ (Xa[q] - Xa[o.pts[0]]))))
+        rel = 1e-6 + (3.0 * smax / 6.37e6 + 1e-4 if ang else 0.0) + (2.5 / dmin if hasdh else 0.0)
         t = 1.01e-3 + ref2.tol(xs) * 10 + rel * xs * min(ref2.kappa, 100.0)
         out.ratio("reference step: |x - x_ref| / tol (%s)" % ("angular" if ang else "dh" if hasdh else "plain"), e, t)
         if e > t:
@@ -860,6 +872,11 @@ def _work(out, seed, i, tier, tmp, keep_input):
                                               "more than a common translation (%.3g m)" % e, w)
 
 
+def n_dropped(net, R):
+    exp = sum(1 for _, o in net.all_obs() if g3gen.active(net, o))
+    return exp - len(R["obs"])
+
+
 def check_counts(out, net, R, ref, datum, wit):
     """relation e: equations, parameters, defect, redundancy"""
     S = R["stats"]
@@ -875,6 +892,7 @@ def check_counts(out, net, R, ref, datum, wit):
     for k in sorted(set(exp) | set(got)):
         if exp.get(k, 0) != got.get(k, 0):
             forms = sorted({net.pts[q].form for _, o in net.all_obs() if o.kind == k for q in o.pts})
+            out.count("runs with silently dropped observations")
             out.violation("dropped-observations:%s:points-as-%s" % (k, "+".join(forms)),
                           "%d %s observations in the input, %d in the adjustment (no rejection reported; points given as %s)" % (
                               exp.get(k, 0), k, got.get(k, 0), "/".join(forms)), wit)
